@@ -17,7 +17,7 @@ from fractions import Fraction as F
 
 import numpy as np
 
-from harness.core import coq_eval_cases, coq_list, q_lit, run_impl
+from harness.core import safe_fraction, coq_eval_cases, coq_list, q_lit, run_impl
 
 HEADER = ("From Coq Require Import QArith Qabs List Bool ZArith.\nFrom SV Require Import model.Spring.\n"
           "Import ListNotations.\nOpen Scope Q_scope.\n")
@@ -29,7 +29,7 @@ def hx(x):
 
 
 def fq(x):
-    return q_lit(F(float(x)))
+    return q_lit(safe_fraction(x))
 
 
 def rnd(rng, lo, hi, q=8):
